@@ -44,4 +44,23 @@ def exchange (maxC : Nat) (n : Nat) (conc : Int) (r : Nat) (evs : List Ev) : Lis
   let c := clamp maxC conc
   (pick n r c, collect c 0 evs)
 
+/-! ## which servers a query reaches: construction of `U` (`NewForward`) and tag subsets -/
+
+/-- The upstream list `U` that `NewForward` builds: `targets[i]` is the server that the options of the
+configured entry `i` designate (addr, dial_addr, socks5, bootstrap ...). `perEntry` stands for the
+regenerated facts "every entry gets its own upstream, created from its own options, at its own position";
+without them the model does not say what `U` is. -/
+def build (perEntry : Bool) (targets : List Nat) : Option (List Nat) :=
+  if perEntry then some targets else none
+
+/-- the list in use: all of `U`, or the upstreams of the named entries, in the order of the tags
+(`QuickConfigureExec`); `idx` are positions of `U` -/
+def inUse (u : List Nat) : Option (List Nat) → List Nat
+  | none => u
+  | some idx => idx.map (fun i => u.getD i 0)
+
+/-- the servers one query is sent to, in the order in which the helpers are started -/
+def contacted (maxC : Nat) (s : List Nat) (conc : Int) (r : Nat) : List Nat :=
+  (pick s.length r (clamp maxC conc)).map (fun p => s.getD p 0)
+
 end Model.C14
